@@ -65,6 +65,7 @@ type zzInformer struct {
 	gvk  schema.GroupVersionKind
 	regs []*zzReg
 	next *int
+	t    *zzInformers
 }
 
 func (i *zzInformer) AddEventHandler(kcache.ResourceEventHandler) (kcache.ResourceEventHandlerRegistration, error) {
@@ -75,6 +76,10 @@ func (i *zzInformer) AddEventHandler(kcache.ResourceEventHandler) (kcache.Resour
 }
 
 func (i *zzInformer) RemoveEventHandler(reg kcache.ResourceEventHandlerRegistration) error {
+	if i.t.failRemovals > 0 {
+		i.t.failRemovals--
+		return errors.New("injected event handler removal failure")
+	}
 	for k, r := range i.regs {
 		if kcache.ResourceEventHandlerRegistration(r) == reg {
 			i.regs = append(i.regs[:k:k], i.regs[k+1:]...)
@@ -90,6 +95,8 @@ type zzInformers struct {
 	cache.Informers
 	infs []*zzInformer
 	next int
+	// failRemovals is the number of upcoming RemoveEventHandler calls that fail.
+	failRemovals int
 }
 
 func zzGVKOf(obj client.Object) schema.GroupVersionKind {
@@ -110,7 +117,7 @@ func (t *zzInformers) GetInformer(_ context.Context, obj client.Object, _ ...cac
 	if k := t.find(gvk); k >= 0 {
 		return t.infs[k], nil
 	}
-	i := &zzInformer{gvk: gvk, next: &t.next}
+	i := &zzInformer{gvk: gvk, next: &t.next, t: t}
 	t.infs = append(t.infs, i)
 	return i, nil
 }
